@@ -273,8 +273,7 @@ func checkC01(p *Prog, res *Result, tier string) {
 	res.Stats["versioned_batches"] = len(vbs)
 
 	// ---- R6: engines evaluate the conditions atomically with the write (C11-R1 / C11-R2) ----
-	sub11 := newResult("C11")
-	checkC11(p, sub11, tier)
+	sub11 := p.subResult("C11", tier)
 	for _, o := range sub11.Obls {
 		if (o.Rule == "C11-R1" && (strings.Contains(o.Construct, "CAS") || strings.Contains(o.Construct, "PutIfNotExist"))) ||
 			(o.Rule == "C11-R2" && (strings.Contains(o.Construct, "Commit:") || strings.Contains(o.Construct, "memkv:"))) ||
